@@ -77,7 +77,7 @@ def node (c : Ctx) : St → J → Act
      | some (.ty .Namespace) => .keep
      | some (.ty .Exempt) => .keep
      | some (.ty .OperatorArray) => .arr (.P S nkp)
-     | some (.ty .Pipeline) => .arr (.AElem S [] (c.selArr xs) nkp)
+     | some (.ty .Pipeline) => .arr .FacetStage
      | _ => .arr (.AElem S [] (c.selArr xs) (nkp ++ [sk])))
   | .SubVal S k nkp sk sm, v => .leaf (c.subValScalar S k nkp sk sm v)
   | .AElem S _ _ kp, .obj _ => .obj (c.qObj S none kp)
